@@ -16,6 +16,7 @@ mod relations;
 mod edits;
 mod mappost;
 mod fuzz;
+mod flow;
 
 use util::*;
 
@@ -94,6 +95,7 @@ fn main() {
         ("mappost", "replay") => mappost::replay(&args, &mut s),
         ("mappost", "relations") => mappost::relations(&args, &mut s),
         ("c01", "explore") => fuzz::explore(&args, &mut s),
+        ("flow", "replay") => flow::replay(&args, &mut s),
         (m, o) => {
             eprintln!("unknown module/mode {m} {o}");
             std::process::exit(2);
